@@ -9,6 +9,8 @@ import (
 	"hash/fnv"
 	"os"
 	"path/filepath"
+	"regexp"
+	"runtime"
 	"sort"
 	"strconv"
 	"strings"
@@ -332,4 +334,65 @@ func oneLine(s string) string {
 		s = s[:400] + "…"
 	}
 	return s
+}
+
+// ---------------------------------------------------------------- hung goroutines
+
+// Goid returns the id of the calling goroutine.
+func Goid() int64 {
+	var buf [64]byte
+	n := runtime.Stack(buf[:], false)
+	f := strings.Fields(string(buf[:n]))
+	if len(f) < 2 {
+		return -1
+	}
+	id, _ := strconv.ParseInt(f[1], 10, 64)
+	return id
+}
+
+var goroutineHeader = regexp.MustCompile(`(?m)^goroutine (\d+) \[([^\]]+)\]`)
+
+// GoroutineState returns the wait state of goroutine id ("" if it no longer exists).
+func GoroutineState(id int64) string {
+	buf := make([]byte, 1<<16)
+	for {
+		n := runtime.Stack(buf, true)
+		if n < len(buf) {
+			buf = buf[:n]
+			break
+		}
+		buf = make([]byte, 2*len(buf))
+	}
+	for _, m := range goroutineHeader.FindAllSubmatch(buf, -1) {
+		if g, _ := strconv.ParseInt(string(m[1]), 10, 64); g == id {
+			st := string(m[2])
+			if i := strings.Index(st, ","); i >= 0 {
+				st = st[:i]
+			}
+			return st
+		}
+	}
+	return ""
+}
+
+// Stuck decides, for a request whose handler goroutine id has not returned in
+// time, whether it is blocked (waiting for a lock, a channel or a condition in
+// every one of 5 samples taken a second apart: a hang) or merely slow
+// (running, runnable, in a system call or I/O wait in some sample: the machine
+// is overloaded, which must never be reported as a finding).
+func Stuck(id int64) (stuck bool, states []string) {
+	stuck = true
+	for i := 0; i < 5; i++ {
+		st := GoroutineState(id)
+		states = append(states, st)
+		switch st {
+		case "semacquire", "sync.Mutex.Lock", "sync.RWMutex.Lock", "sync.RWMutex.RLock", "sync.Cond.Wait", "sync.WaitGroup.Wait", "chan receive", "chan send", "select", "chan receive (nil chan)", "chan send (nil chan)", "select (no cases)":
+		default:
+			stuck = false
+		}
+		if i < 4 {
+			time.Sleep(time.Second)
+		}
+	}
+	return stuck, states
 }
